@@ -36,7 +36,7 @@ PROPS = {
                      "iff the points on the requested grid are the whole mesh (otherwise it is rejected), a returned selection names each mesh "
                      "point exactly once, duplicated points are counted once. Every finished state is executed on the real functions: the status "
                      "(returned / raised, any exception class) must agree and returned values must satisfy the same clauses (any order of the "
-                     "indices). Seeded random records (3-D meshes up to 12 per direction and a few up to 24, denominator 100 only for meshes "
+                     "indices). Seeded random records (3-D meshes up to 12 per direction and a few up to 24 (at most 400 points), denominator 100 only for meshes "
                      "along one direction, 1-3 points removed / duplicated, random shifts, grid argument = mesh / divisor / arbitrary, given as tuple, "
                      "list or array) are validated clause by clause by TLC (MPGridRec).",
                 note="coordinates are exact fractions p/DEN in [0,1) passed as correctly rounded floats and, for denominators <= 18, also rounded to 8 "
@@ -220,7 +220,7 @@ def _check(rep, tier, tag, made):
     # ---------------- code -> spec: random recorded calls
     recs = []
     nrec = 900 if thorough else 200
-    big = [(16, 16, 1), (20, 10, 2), (24, 24, 1), (1, 16, 16), (12, 12, 4)]
+    big = [(16, 16, 1), (20, 10, 2), (24, 12, 1), (1, 16, 16), (2, 12, 12)]
     nbig = 0
     while len(recs) < nrec:
         r = rng.random()
@@ -235,7 +235,7 @@ def _check(rep, tier, tag, made):
         else:
             n = [rng.choice([1, 2, 3, 4, 5, 6, 8, 10, 12]) for _ in range(3)]
         N = n[0] * n[1] * n[2]
-        if N > 600:
+        if N > 400:
             continue
         Q = rng.choice([1, 1, 1, 2, 3])
         den = math.lcm(n[0], n[1], n[2]) * Q
